@@ -47,6 +47,16 @@ func NoteCAS(g *G, p unsafe.Pointer, old uint64, ok bool, changes bool) {
 		if rec, seen := g.seen[a]; seen && rec.val == old && rec.ver != s.vers[a] {
 			s.ABAs = append(s.ABAs, ABAEvent{Addr: a, G: g.id, Step: s.steps})
 			s.Counters["aba.cas"]++
+			name, ok := s.abaWatch[a]
+			if !ok && s.OnABA != nil {
+				name = s.OnABA(a)
+				ok = name != ""
+			}
+			if ok {
+				// every later verdict of this run (including panics on library goroutines) carries the tag
+				SetGlobalTag("aba_on", name)
+				s.Counters["aba.tagged"]++
+			}
 		}
 		if changes {
 			s.vers[a]++
@@ -60,4 +70,16 @@ func Norm(p unsafe.Pointer) uintptr {
 		return uintptr(p)
 	}
 	return S.norm(p)
+}
+
+// WatchABA names a word (e.g. the head of a free list): an ABA event on it tags the rest of the run with aba_on=name.
+func WatchABA(p unsafe.Pointer, name string) {
+	s := S
+	if s == nil {
+		return
+	}
+	if s.abaWatch == nil {
+		s.abaWatch = map[uintptr]string{}
+	}
+	s.abaWatch[s.norm(p)] = name
 }
